@@ -157,6 +157,12 @@ the machinery, never in the properties:
   `close()` (a loop the contract has no invariant for havocs everything: a function with more loops than the template has
   loop contracts for is now lost, not verified); the disconnection arm of `next()` returning at once (unreachable while the
   iterator holds its subscription: nothing is asked for that case any more);
+* a fifth round (1 of 18): `Drop for StateIterator` releasing the subscription only inside `if let Some(rx) = self.iter_rx.take()`
+  — equivalent only because `next()` never leaves a subscription behind without its receiver, while an earlier mutant
+  (`next()` leaving the release to `Drop`) is equivalent only because `drop` handles exactly that state: two edits that are
+  each harmless and mutually incompatible. A modular contract has to pick an interface; to raise no alarm on either, the
+  clause of `drop` is silent about the state "subscription without receiver" and the clause of `next()` allows leaving the
+  release to `drop`; the price is that the two edits *together* (a real leak) would verify — recorded here as a known gap;
 * (found by review, not by an edit) the model pinned `action_executed`, `effect_executed`, `state_notified`,
   `subscriber_notified` and "the shutdown marker counts as received" → only the counters of the balance
   equations are modelled, the marker may or may not be booked.
